@@ -157,7 +157,7 @@ func (m *monitors) checkEntries(r *run, c *call, racy bool) {
 			if subscribedNow > 1 {
 				r.fail("entry", "C13.subscribed-once", "reported-2", "%s: the state-change handler of %s reported the transition to SUBSCRIBED %d times", e.a.name, e.d.key, subscribedNow)
 			}
-			if state != model.StateOfDatatype_SUBSCRIBED && len(newErrs) == 0 {
+			if state != model.StateOfDatatype_SUBSCRIBED && len(newErrs) == 0 && !e.d.noErr {
 				r.fail("entry", "C13.refused-cleanly", e.mode+"/no-error-reported", "%s: %s of %s (racing with other entry requests) did not get in, but the error handler was not called", e.a.name, e.mode, e.d.key)
 			}
 			continue
@@ -169,7 +169,7 @@ func (m *monitors) checkEntries(r *run, c *call, racy bool) {
 			if state == model.StateOfDatatype_SUBSCRIBED || subscribedNow > 0 {
 				r.fail("entry", "C13.refused-cleanly", e.mode+"/accepted", "%s: %s of %s must be refused (%s) but the datatype became SUBSCRIBED (response option %s)", e.a.name, e.mode, e.d.key, e.why, pack.GetPushPullPackOption().String())
 			}
-			if len(newErrs) == 0 {
+			if len(newErrs) == 0 && !e.d.noErr {
 				r.fail("entry", "C13.refused-cleanly", e.mode+"/no-error-reported", "%s: %s of %s must be refused (%s) but the error handler was not called", e.a.name, e.mode, e.d.key, e.why)
 			}
 			if after := r.partition(colNum, e.d.key); after != e.partBefore {
@@ -178,9 +178,12 @@ func (m *monitors) checkEntries(r *run, c *call, racy bool) {
 		default:
 			if state != model.StateOfDatatype_SUBSCRIBED {
 				r.fail("entry", "C13.accepted", e.mode+"/not-subscribed", "%s: %s of %s should have been %s but the datatype is %s (errors: %v)", e.a.name, e.mode, e.d.key, e.outcome, state.String(), newErrs)
+				// (C07: an entry request that is sent again - its answer was lost, or it was delivered twice - gets
+				// in as it would have the first time; a client that stays outside is left out of every comparison)
+				r.fail("msg", "C07.entry-as-if-delivered-once", e.mode+"/not-subscribed", "%s: %s of %s should have been %s but the datatype is %s (errors: %v)", e.a.name, e.mode, e.d.key, e.outcome, state.String(), newErrs)
 				continue
 			}
-			if subscribedNow != 1 {
+			if subscribedNow != 1 && !e.d.noState {
 				r.fail("entry", "C13.subscribed-once", fmt.Sprintf("reported-%d", min(subscribedNow, 2)), "%s: the state-change handler of %s reported the transition to SUBSCRIBED %d times", e.a.name, e.d.key, subscribedNow)
 			}
 			// first state == the datatype's state at the log position it subscribed at
